@@ -12,16 +12,22 @@
 EXTENDS Naturals, Sequences, FiniteSets, TLC
 
 Sigs == {"none", "trusted", "untrusted", "tampered", "wrapDiff", "wrapSame", "relocated"}
-Cfgs == [skip : BOOLEAN, issuerCfg : BOOLEAN]
+\* sloCfg = FALSE: the SP has no single-logout URL configured (ServiceProviderSLOURL = ""); only an absent
+\* Destination can then be "empty or equal to the SLO URL" -- in particular the ACS URL is not a fallback
+Cfgs == [skip : BOOLEAN, issuerCfg : BOOLEAN, sloCfg : BOOLEAN]
 FieldsOK == [version |-> "ok", dest |-> "ok", issuer |-> "ok", status |-> "ok"]
+\* dest = "acs": the SP's assertion consumer URL (a different endpoint of the same SP)
 \* dest = "near": a near miss of the SLO URL (query, fragment, userinfo, host case, trailing slash)
-Same == [kind : {"req"}, entry : {"req"}, version : {"ok", "absent", "wrong"}, dest : {"ok", "absent", "other", "near"},
+Same == [kind : {"req"}, entry : {"req"}, version : {"ok", "absent", "wrong"}, dest : {"ok", "absent", "other", "near", "acs"},
          issuer : {"ok", "absent", "other"}, status : {"ok"}, sig : Sigs] \cup
-        [kind : {"resp"}, entry : {"resp"}, version : {"ok", "absent", "wrong"}, dest : {"ok", "absent", "other", "near"},
+        [kind : {"resp"}, entry : {"resp"}, version : {"ok", "absent", "wrong"}, dest : {"ok", "absent", "other", "near", "acs"},
          issuer : {"ok", "absent", "other"}, status : {"ok", "nostatus", "nocode", "fail", "nestfail"}, sig : Sigs]
 Confused == { x \in [kind : {"req", "resp", "sso"}, entry : {"req", "resp", "sso"}, version : {"ok"}, dest : {"ok"},
                      issuer : {"ok"}, status : {"ok"}, sig : {"none", "trusted"}] : x.kind # x.entry }
 Inputs == Same \cup Confused
+
+\* the Destination attribute is present and is not the configured SLO URL
+DestBad(cfg, in) == in.dest \in {"other", "near", "acs"} \/ (~cfg.sloCfg /\ in.dest # "absent")
 
 NoErr == [cls |-> "none", type |-> "none", name |-> "none"]
 E(t, n) == [cls |-> "typed", type |-> t, name |-> n]
@@ -34,7 +40,7 @@ Verify(in) == CASE in.sig = "none"      -> "missing"
                 [] OTHER                -> "error"       \* untrusted: certificate; tampered, wrapSame, relocated: digest
 
 FieldCheck(cfg, in) ==
-   IF in.dest \in {"other", "near"} THEN E("ErrInvalidValue", "destination")
+   IF DestBad(cfg, in) THEN E("ErrInvalidValue", "destination")
    ELSE IF in.version # "ok" THEN E("ErrInvalidValue", "samlversion")
    ELSE IF in.issuer = "absent" THEN E("ErrMissingElement", "issuer")
    ELSE IF cfg.issuerCfg /\ in.issuer = "other" THEN E("ErrInvalidValue", "issuer")
@@ -55,7 +61,7 @@ ModelOut(cfg, in) ==
 ---------------------------------------------------------------------------
 V(t, names) == [type |-> t, names |-> names]
 Viol(cfg, in) ==
-   (IF in.dest \in {"other", "near"} THEN {V("ErrInvalidValue", {"destination"})} ELSE {}) \cup
+   (IF DestBad(cfg, in) THEN {V("ErrInvalidValue", {"destination"})} ELSE {}) \cup
    (IF in.version # "ok" THEN {V("ErrInvalidValue", {"samlversion", "version"})} ELSE {}) \cup
    (IF in.issuer = "absent" THEN {V("ErrMissingElement", {"issuer"})} ELSE {}) \cup
    (IF cfg.issuerCfg /\ in.issuer = "other" THEN {V("ErrInvalidValue", {"issuer"})} ELSE {}) \cup
